@@ -1511,7 +1511,8 @@ def environ_from_url(path):
         if qs:
             path += "?" + qs
 
-        if ":" not in netloc:
+        # an IPv6 literal ("[::1]") contains colons but carries no port
+        if ":" not in netloc or netloc[-1] == "]":
             if scheme == "http":
                 netloc += ":80"
             elif scheme == "https":
@@ -1533,8 +1534,8 @@ def environ_from_url(path):
         "SCRIPT_NAME": "",
         "PATH_INFO": path_info or "",
         "QUERY_STRING": query_string,
-        "SERVER_NAME": netloc.split(":")[0],
-        "SERVER_PORT": netloc.split(":")[1],
+        "SERVER_NAME": netloc.rsplit(":", 1)[0],
+        "SERVER_PORT": netloc.rsplit(":", 1)[1],
         "HTTP_HOST": netloc,
         "SERVER_PROTOCOL": "HTTP/1.0",
         "wsgi.version": (1, 0),
